@@ -65,7 +65,7 @@ Definition dw (ks : list call) (n : Z) (s : st) : st :=
     if (r =? SENT_INPROGRESS) || (r =? SENT_MAXNUM) then
       if SEND_BUF <? n then set_obuf (zeros z1 ++ rest) (lose ks s2)
       else set_obuf (zeros (z1 ++ ks) ++ rest) (set_sb_n n s2)
-    else if r =? 0 then set_obuf (zeros z1 ++ rest) (put_wire ks s2)
+    else if r =? 0 then set_obuf rest (put_wire (z1 ++ ks) s2)       (* nothing is staged here: z1 = [] *)
     else set_obuf (zeros z1 ++ rest) (lose ks s2)
   else set_obuf (zeros z1 ++ rest) s1.
 
@@ -79,7 +79,7 @@ Definition iterate6 (s : st) : st :=
     let '(z0, u) := staged (obuf s1) in
     let '(done, rest) := drain SRPC_CHUNK u in
     let n := bytes u - bytes rest in
-    if n =? 0 then s1 else dw done n (set_obuf (zeros z0 ++ rest) s1)
+    if 0 <? n then dw done n (set_obuf (zeros z0 ++ rest) s1) else s1
   else s.
 (* supla_esp_devconn_iterate: the staged bytes are retried first *)
 Definition dev_iterate (s : st) : st := if conn s then dw [] 0 s else s.
